@@ -33,7 +33,8 @@ _ALL = ["timing", "mutex", "queueing", "pool", "wakeup", "lifecycle", "buffer", 
 def strategy(tier):
     heavy = (tier == "thorough")
     big = [simgen.scenario(p, big=True) for p in _ALL] if heavy else []
-    return st.one_of(*([simgen.scenario(p) for p in _ALL] + big + [simgen.stress(heavy)] * 4))
+    return st.one_of(*([simgen.scenario(p) for p in _ALL] + big + [simgen.stress(heavy)] * 4
+                       + [simgen.coincide()] * 2 + [simgen.crowd()] * 2))
 
 
 def serialize(case):
